@@ -677,6 +677,75 @@ def r13_7(prog, rep):
         rep.ok(rid, key, f.loc(S.line), "all 512 requestable umasks are kept, the unset code 0%o is reset (`%s` evaluated for all %d field values)" % (mask, show(c), mask + 1))
 
 
+
+def r13_9(prog, rep):
+    """sendfile(2) moves *up to* the requested number of bytes (a pipe takes what fits and the call returns short): every call that
+    copies a known amount of job output on must sit in a loop that goes on until the count is done — one call loses everything beyond the
+    first pipe-full of a mail body or an output file."""
+    rid = "R13.9"
+    n = 0
+    for f in prog.fns_in("echsx.c"):
+        if not f.cfg or f.file != "echsx.c":
+            continue
+        cfg = f.cfg
+        loops = cfg.natural_loops()
+        # (splice() out of the job's pipe is different: it takes what has arrived, the event loop calls again for more)
+        for sname in ("sendfile",):
+            for S in call_sites(f, sname):
+                n += 1
+                key = "%s/%s-in-a-loop#%d" % (f.name, sname, n)
+                inl = [h for h, blks in loops.items() if S.b in blks]
+                # the loop goes on while something depends on what the call returned: its result is assigned and read in the loop
+                res = None
+                for b, i, x, line in cfg.all_elems():
+                    if isinstance(x, dict):
+                        for l, kind, nn in writes(x):
+                            rhs = nn.get("init") if kind == "decl" else (nn.get("r") if nn.get("k") == "bin" else None)
+                            if rhs is not None and any(q is S.node or (q.get("k") == "call" and q.get("fn") == sname and q.get("line") == S.node.get("line"))
+                                                       for q in walk(cfg.resolve(rhs))):
+                                res = lv(l)
+                if inl:
+                    rep.ok(rid, key, f.loc(S.line), "%s() is repeated in a loop (result %s)" % (sname, res or "tested in the loop condition"))
+                else:
+                    rep.fail(rid, key, f.loc(S.line), "%s() is called once: it returns short when the target is a pipe or the source is still growing, and the rest of "
+                             "the job's output (everything beyond about 64 kB of a mail body) is silently dropped" % sname)
+    if n < 2:
+        rep.broken_("rule=%s expected >=2 sendfile calls in echsx.c, found %d" % (rid, n))
+
+
+def r13_10(prog, rep):
+    """The executor talks to the daemon over its own standard descriptors: the request arrives on stdin, the journal entry (also the
+    `not run` report of an occurrence over its limit) leaves on stdout.  Nothing in echsx.c may redirect descriptors 0/1/2 of
+    the executor itself (the job's descriptors are set up through posix_spawn file actions, which are not affected)."""
+    rid = "R13.10"
+    n = 0
+    bad = []
+    for f in prog.fns_in("echsx.c"):
+        if not f.cfg or f.file != "echsx.c":
+            continue
+        for b, i, c, line in f.all_calls():
+            fn = c.get("fn")
+            if fn in ("dup2", "dup3") and len(c.get("a", [])) >= 2:
+                n += 1
+                v = const_eval(f, f.cfg.resolve(c["a"][1]))
+                if v in (0, 1, 2):
+                    bad.append((f, line, "%s(.., %d)" % (fn, v)))
+            elif fn == "close" and c.get("a"):
+                n += 1          # examined, not judged: closing stdin on the way out of main() redirects nothing
+            elif fn in ("freopen", "daemon"):
+                n += 1
+                bad.append((f, line, "%s()" % fn))
+    key = "echsx/own-standard-descriptors-untouched"
+    if bad:
+        f, line, what = bad[0]
+        rep.fail(rid, key, f.loc(line), "%s in %s() redirects a standard descriptor of the executor itself: the request from the daemon (stdin) or the journal "
+                 "entry / `not run` report for it (stdout) goes nowhere" % (what, f.name))
+    else:
+        rep.ok(rid, key, "src/echsx.c", "%d close/dup2 calls examined, no dup2 onto descriptor 0, 1 or 2" % n)
+    if n < 3:
+        rep.broken_("rule=%s expected >=3 close/dup2 calls in echsx.c, found %d" % (rid, n))
+
+
 def run(prog, rep, tier, snap):
     rep.rule("R13.1", "the 20-row routing table of prep_task against the statement", 20)
     rep.call(r13_1, prog, rep)
@@ -696,4 +765,8 @@ def run(prog, rep, tier, snap):
     from ..rules import spawn
     rep.rule("R13.6", "a failed posix_spawn (positive error number) is not taken for a started process", 2)
     rep.call(spawn.spawn_results, prog, rep, "R13.6", "echsx.c", 2)
+    rep.rule("R13.9", "sendfile is repeated until the count is done", 2)
+    rep.call(r13_9, prog, rep)
+    rep.rule("R13.10", "the executor's own standard descriptors are left alone", 1)
+    rep.call(r13_10, prog, rep)
 READY = True
